@@ -495,7 +495,9 @@ class BlackbirdProgram:
                     # for each operation argument, format it
                     # correctly depending on its type
                     if isinstance(v, np.ndarray):
-                        # create an array variable
+                        # create an array variable (with a name not taken by a program variable)
+                        while "A{}".format(var_count) in self._var:
+                            var_count += 1
                         var_name = "A{}".format(var_count)
                         args.append(var_name)
                         var_count += 1
@@ -533,7 +535,9 @@ class BlackbirdProgram:
                     # for each operation argument, format it
                     # correctly depending on its type
                     if isinstance(v, np.ndarray):
-                        # create an array variable
+                        # create an array variable (with a name not taken by a program variable)
+                        while "A{}".format(var_count) in self._var:
+                            var_count += 1
                         var_name = "A{}".format(var_count)
                         kwargs.append("{}={}".format(k, var_name))
                         var_count += 1
